@@ -144,7 +144,61 @@ pub fn c16_backtrack_body<S: Src>(s: &mut S) {
     cover!("cover:first-alternative", out == Some(1));
 }
 
+/// @harness props=C16:Q,C20:T n=3 err=TagErr timeout=900 input=token_tree:_group_then_up_to_2_leaves
+/// @shape ( group any t2 ) | ( A.nested_in(group) then leaf(t1) )     A = t0 (succeeds leaving nothing pending)       and, without any choice:   V.nested_in(group) then leaf?   V = t0.validate(emit)
+/// @symbolic t0..t2: u8; inner length and values; outer leaves; which of the two grammars
+/// @aims (1) a nested parse that SUCCEEDS must not disturb the error an earlier alternative left pending further ahead; (2) with no backtracking point outside, an emission made inside a nested parse that then FAILS (unconsumed inner tail) still surfaces next to the failure
+pub fn c16_errors_body<S: Src>(s: &mut S) {
+    let t = [s.u8(), s.u8(), s.u8()];
+    let which = s.bool();
+    let mut b0 = [Tok::L(0); 2];
+    let g0 = inner_any(s, &mut b0);
+    let (v1, v2) = (s.u8(), s.u8());
+    let outer_buf = [Tok::G(g0), Tok::L(v1), Tok::L(v2)];
+    let n = 1 + s.upto(2) as usize;
+    let outer = &outer_buf[..n];
+    let inner_ok = g0.len() == 1 && g0[0] == Tok::L(t[0]);
+    if which {
+        let alt1 = group().then(any_l()).then(l(t[2])).to(1u8);
+        let alt2 = l(t[0]).nested_in(group()).then_ignore(l(t[1])).to(2u8);
+        let r = alt1.or(alt2).parse(outer);
+        contract(&r);
+        let (out, errs) = r.into_output_errors();
+        let first = n == 3 && v2 == t[2];
+        let second = inner_ok && n == 2 && v1 == t[1];
+        check!("C16:acceptance", out.is_some() == (first || second));
+        if out.is_none() && n >= 2 && inner_ok && v1 != t[1] {
+            // alt1 failed at outer position 2 (wrong or missing third token), alt2's nested parse succeeded and its
+            // follower failed at position 1: the furthest failure is alt1's
+            if let Some(e) = errs.last() {
+                check!("C16:nested-success-keeps-earlier-further-error", e.start() == 2);
+            }
+        }
+        cover!("cover:both-fail-nested-ok", out.is_none() && n >= 2 && inner_ok && v1 != t[1]);
+        cover!("cover:second-alternative", out == Some(2));
+    } else {
+        let v = l(t[0]).validate(|v, e, em| {
+            em.emit(TagErr::emitted(1, e.span()));
+            v
+        });
+        let r = v.nested_in(group()).then(any_l().or_not()).parse(outer);
+        contract(&r);
+        let (out, errs) = r.into_output_errors();
+        check!("C16:acceptance", out.is_some() == (inner_ok && n <= 2));
+        let emitted_then_failed_inside = g0.len() == 2 && g0[0] == Tok::L(t[0]);
+        if emitted_then_failed_inside {
+            check!("C16:inner-emission-surfaces-with-the-inner-failure", out.is_none() && errs.len() == 2 && errs[0].id() == 1);
+        }
+        if inner_ok && n <= 2 {
+            check!("C16:inner-emission-surfaces", errs.len() == 1 && errs[0].id() == 1);
+        }
+        cover!("cover:emitted-then-inner-tail", emitted_then_failed_inside);
+        cover!("cover:accept", out.is_some());
+    }
+}
+
 crate::harnesses! {
+    c16_errors [6] = c16_errors_body;
     c16_nested [6] = c16_nested_body;
     c16_backtrack [6] = c16_backtrack_body;
 }
